@@ -10,7 +10,7 @@ def run(run, tier, seed):
                 "declarative (Hamming over shared k-mers, |exactly one|/|at least one|), symmetry, identical samples at (0,0), "
                 "proportion in [0,1]; every case replayed through generic_modes::distance. traces: random unambiguous tables "
                 "(2-12 samples, 20-2000 rows, any missingness) and planted-SNP genome sets, sample permutations, threads 1/4, "
-                "+-allow-ambiguous, min-freq j/n through `ska distance`. non-trivial = >=3 samples, a row below the "
+                "+-allow-ambiguous, min-freq j/n and left out (default, 7-12 samples) through `ska distance`. non-trivial = >=3 samples, a row below the "
                 "threshold, a SNP row and a constant row; distinct by (table, threshold)")
     run.assumptions = ["printed distances have 2 and proportions 5 decimals: proportions are compared to one unit of the last place"]
     cfg = "MC_Dist_quick" if tier == "quick" else "MC_Dist_thorough"
@@ -101,6 +101,20 @@ def run(run, tier, seed):
                 sb.distance("x", n, minf, allow_ambig=bool(pi % 2), threads=1 + pi % 3)
                 run.evaluations += 1
                 run.nontriv([rows, minf])
+        # --min-freq left out (default 0: nothing is ignored) on files with many samples, where even a small non-zero
+        # threshold would already drop the k-mers private to one sample
+        for pi, n in enumerate([11, 12] if tier == "quick" else [7, 9, 10, 11, 11, 12, 12, 12]):
+            k = rng.choice(gen.ALLK)
+            rows = gen.random_table(rng, k, n, rng.randint(30, 90), alphabet="AAAACCGT---")
+            for ri_, r in enumerate(rows):
+                if ri_ % 3 == 0:
+                    own = ri_ % n
+                    r[1] = [45] * own + [r[1][own] if r[1][own] != 45 else 67] + [45] * (n - own - 1)   # private to one sample
+            sb.reset()
+            sb.import_table("x", k, True, ["d%d_%d" % (pi, i) for i in range(n)], rows)
+            sb.distance("x", n, [0, 1000], allow_ambig=bool(pi % 2), threads=1 + pi % 2, default_minf=True)
+            run.evaluations += 1
+            run.nontriv([rows, "default"])
         # a table with more than a thousand variable rows, run with several pool sizes (block-wise or chunked
         # accumulation must not depend on the thread count or lose a remainder)
         n, k = 3, 21
